@@ -32,7 +32,7 @@ CORRESPONDENCE_ONLY = "the attribute value coders (entropy coding, prediction, q
 EXPLANATION = ("the theorems cover the id bookkeeping of the API and the order preservation of the sequential decoder model; "
                "value-level exactness is checked by the oracle and the executable specification on every generated animation")
 ASSUMPTIONS = ["IEEE-754 binary32 round-to-nearest for + - * / and int->float; no FMA contraction (g++ x86-64 SSE)"]
-TIMEOUT = 3000
+TIMEOUT = 900
 U = Fraction(1, 2 ** 24)
 INT_TYPES = ["i8", "u8", "i16", "u16", "i32", "u32"]
 
